@@ -18,7 +18,7 @@ struct Shape_Script : public Script {
 
   // a constraint the domain accepts in add_constraint: (+-a) x_i (+-a) x_j + b rel 0
   RawCon shaped_con() {
-    RawCon c; c.a.assign(n, 0); c.b = rc(); int k = rnd(0, 6); c.rel = k < 5 ? 1 : 0;
+    RawCon c; c.a.assign(n, 0); c.b = coin(65) ? rc() : rc_big(); int k = rnd(0, 6); c.rel = k < 5 ? 1 : 0;
     long a = coin(60) ? (coin() ? 1 : -1) : (coin(80) ? rc_small_nz() : rc_nz());
     int i = rnd(0, n - 1); c.a[i] = a;
     if (n > 1 && coin(65)) { int j = rnd(0, n - 2); if (j >= i) ++j; long neg = (a == -G().lim - 1) ? G().lim : -a; c.a[j] = (OCT && coin()) ? a : neg; }
@@ -87,7 +87,7 @@ struct Shape_Script : public Script {
     case DIFF: ctx.begin("difference_assign", ra + ".difference_assign(" + rb + ")"); A.difference_assign(B); out.push_back(obs_cons_only(A)); break;
     case TIME_ELAPSE: ctx.begin("time_elapse_assign", ra + ".time_elapse_assign(" + rb + ")"); A.time_elapse_assign(B); out.push_back(obs_cons_only(A)); break;
     case AFF_IMG: case AFF_PRE: {
-      int k = rnd(0, n - 1); std::vector<long> a = raw_vec(n, 40); long b = rc(); long d = coin(70) ? rc_small_nz() : rc_nz();
+      int k = rnd(0, n - 1); std::vector<long> a = raw_vec(n, 40); long b = coin(70) ? rc() : rc_big(); long d = coin(70) ? rc_small_nz() : rc_nz();
       const char* nm = op == AFF_IMG ? "affine_image" : "affine_preimage";
       ctx.begin(nm, ra + "." + nm + "(" + (char) ('A' + k) + ", " + show(a, b) + ", " + std::to_string(d) + ")");
       if (op == AFF_IMG) A.affine_image(Variable(k), le(a, b, n), Coefficient(d)); else A.affine_preimage(Variable(k), le(a, b, n), Coefficient(d));
@@ -130,7 +130,11 @@ struct Shape_Script : public Script {
     case NARROW: {
       ctx.begin("CC76_narrowing_assign", "y=copy(" + rb + ");y.upper_bound_assign(" + ra + ");" + ra + ".CC76_narrowing_assign(y)");
       SH y(B); y.upper_bound_assign(A); A.CC76_narrowing_assign(y); out.push_back(obs_cons_only(A)); break; }
-    case SIMPLIFY: { ctx.begin("simplify_using_context_assign", ra + ".simplify_using_context_assign(" + rb + ")"); bool r = A.simplify_using_context_assign(B); out.push_back(val("nonempty_meet", r)); out.push_back(obs_cons_only(A)); break; }
+    case SIMPLIFY: {
+      // Octagonal_Shape<integer T>::simplify_using_context_assign reaches its final PPL_UNREACHABLE in every configuration
+      // (reported separately; with the static library that is a call through a null weak symbol): octagons skip it unless asked.
+      if (OCT && !hx::opt().geti("octsimplify", 0)) { ctx.begin("contains", ra + ".contains(" + rb + ")"); out.push_back(val("contains", A.contains(B))); break; }
+      ctx.begin("simplify_using_context_assign", ra + ".simplify_using_context_assign(" + rb + ")"); bool r = A.simplify_using_context_assign(B); out.push_back(val("nonempty_meet", r)); out.push_back(obs_cons_only(A)); break; }
     case UNCONSTRAIN: { Variables_Set vs = rand_vars(t); ctx.begin("unconstrain", ra + ".unconstrain{" + t + "}"); if (vs.size() == 1 && coin()) A.unconstrain(Variable(*vs.begin())); else A.unconstrain(vs); out.push_back(obs_cons_only(A)); break; }
     case DIMS: {
       int k = rnd(0, 7); if (n < 2 && k == 5) k = 0;
